@@ -74,7 +74,8 @@ class CirclePixelRegion(PixelRegion):
 
     @property
     def area(self):
-        return math.pi * self.radius ** 2
+        # float: a fixed-width numpy integer radius would wrap around
+        return math.pi * float(self.radius) ** 2
 
     def contains(self, pixcoord):
         pixcoord = PixCoord._validate(pixcoord, name='pixcoord')
@@ -97,10 +98,12 @@ class CirclePixelRegion(PixelRegion):
         """
         Bounding box (`~regions.RegionBoundingBox`).
         """
-        xmin = self.center.x - self.radius
-        xmax = self.center.x + self.radius
-        ymin = self.center.y - self.radius
-        ymax = self.center.y + self.radius
+        # float: a fixed-width numpy integer radius would wrap around
+        radius = float(self.radius)
+        xmin = self.center.x - radius
+        xmax = self.center.x + radius
+        ymin = self.center.y - radius
+        ymax = self.center.y + radius
 
         return RegionBoundingBox.from_float(xmin, xmax, ymin, ymax)
 
